@@ -356,6 +356,7 @@ nodesLoop:
 			if node.Else != nil {
 				node.Else.Nodes = tc.checkNodesInNewScope(node.Else, node.Else.Nodes)
 			}
+			tc.terminating = false
 
 		case *ast.Assignment:
 			tc.checkGenericAssignmentNode(node)
@@ -689,6 +690,7 @@ nodesLoop:
 			if ti != nil {
 				tc.assignScope(name, ti, node.Ident, nil)
 			}
+			tc.terminating = false
 
 		case *ast.Show:
 
@@ -858,6 +860,7 @@ nodesLoop:
 			} else {
 				tiv.setValue(elemType)
 			}
+			tc.terminating = false
 
 		case *ast.URL:
 			node.Value = tc.checkNodes(node.Value)
@@ -868,6 +871,7 @@ nodesLoop:
 				panic(tc.errorf(node, "%s evaluated but not used", node))
 			}
 			ti.setValue(nil)
+			tc.terminating = false
 
 		case *ast.Goto:
 			tc.scopes.UseLabel("goto", node.Label)
@@ -887,6 +891,7 @@ nodesLoop:
 
 		case *ast.Call:
 			tis := tc.checkCallExpression(node)
+			tc.terminating = false
 			ti := tc.compilation.typeInfos[node.Func]
 			if ti.IsBuiltinFunction() {
 				switch node.Func.(*ast.Identifier).Name {
